@@ -58,7 +58,7 @@ type traceOp struct {
 	N    int
 }
 
-// watchdog: ~50x the typical 0.2-0.5 s of one execution; a timeout is
+// watchdog: more than 100x the typical 0.2-0.5 s of one execution (20 s was hit on a machine running three batches at once); a timeout is
 // re-run once, alone, before it counts as a hang.
 const genWatchdog = 60 * time.Second
 
